@@ -334,18 +334,32 @@ where
 // ------------------------------------------------------------------ floats
 trait PFloat: Copy + ToFixed + FromFixed + 'static {
     const BITS: u32;
+    const EBITS: u32;
+    const MBITS: u32;
+    /// the "ft" code of the events (tla/sem/SemConv.tla: FPrec, FEBits, FBias, FEMax)
+    const FT: &'static str;
     fn from_b(b: u64) -> Self;
     fn b(self) -> u64;
+    /// bits of the float nearest to x (only used to aim generators at interesting neighbourhoods)
+    fn near(x: f64) -> u64;
 }
 impl PFloat for f32 {
     const BITS: u32 = 32;
+    const EBITS: u32 = 8;
+    const MBITS: u32 = 23;
+    const FT: &'static str = "32";
     fn from_b(b: u64) -> f32 { f32::from_bits(b as u32) }
     fn b(self) -> u64 { self.to_bits() as u64 }
+    fn near(x: f64) -> u64 { (x as f32).to_bits() as u64 }
 }
 impl PFloat for f64 {
     const BITS: u32 = 64;
+    const EBITS: u32 = 11;
+    const MBITS: u32 = 52;
+    const FT: &'static str = "64";
     fn from_b(b: u64) -> f64 { f64::from_bits(b) }
     fn b(self) -> u64 { self.to_bits() }
+    fn near(x: f64) -> u64 { x.to_bits() }
 }
 fn pf_val<T: PFloat>(f: impl FnOnce() -> T) -> Out { o_num(|| Num::u(f().b() as u128)) }
 fn pf_opt<T: PFloat>(f: impl FnOnce() -> Option<T>) -> Out { o_optnum(|| f().map(|x| Num::u(x.b() as u128))) }
@@ -354,7 +368,7 @@ fn pf_pair<T: PFloat>(f: impl FnOnce() -> (T, bool)) -> Out { o_numpair(|| { let
 /// float bit patterns: every (sampled) exponent x mantissa classes, specials, and floats next to
 /// the lattice values of the layout
 fn float_patterns<T: PFloat>(c: &Ctx, l: Lay, salt: u64) -> Vec<u64> {
-    let (ebits, mbits) = if T::BITS == 32 { (8u32, 23u32) } else { (11, 52) };
+    let (ebits, mbits) = (T::EBITS, T::MBITS);
     let bias = (1i64 << (ebits - 1)) - 1;
     let emax = (1u64 << ebits) - 1;
     let mmask = (1u64 << mbits) - 1;
@@ -366,7 +380,7 @@ fn float_patterns<T: PFloat>(c: &Ctx, l: Lay, salt: u64) -> Vec<u64> {
     let hi = bias + (l.w - l.f) as i64 + 2;
     for e in 0..=emax {
         let near = (e as i64) >= lo && (e as i64) <= hi;
-        let stride = if T::BITS == 32 { 4 } else { 32 };
+        let stride = if T::BITS <= 32 { 4 } else { 32 };
         if !(near || thorough || e % stride == (c.seed % stride) || e <= 1 || e >= emax - 1) {
             continue;
         }
@@ -388,9 +402,9 @@ fn float_patterns<T: PFloat>(c: &Ctx, l: Lay, salt: u64) -> Vec<u64> {
             let m2 = n.mag.wrapping_mul(2).wrapping_add(half);
             let x = sc(m2 as f64, l.f as i32 + 1);
             let x = if n.neg { -x } else { x };
-            let base: u64 = if T::BITS == 32 { (x as f32).to_bits() as u64 } else { x.to_bits() };
+            let base: u64 = T::near(x);
             for d in [-2i64, -1, 0, 1, 2] {
-                v.push(base.wrapping_add(d as u64) & if T::BITS == 32 { 0xffff_ffff } else { !0 });
+                v.push(base.wrapping_add(d as u64) & if T::BITS == 64 { !0 } else { (1u64 << T::BITS) - 1 });
             }
         }
     }
@@ -404,6 +418,84 @@ fn float_patterns<T: PFloat>(c: &Ctx, l: Lay, salt: u64) -> Vec<u64> {
     v.dedup();
     let k = kq(c, 260, 6000);
     budget(v, k, c.seed ^ salt ^ ((l.w as u64) << 40) ^ ((l.f as u64) << 12) ^ T::BITS as u64)
+}
+
+fn ev_cmpf<A, T>(c: &mut Ctx, ar: u128, fb: u64)
+where
+    A: Fx + PartialOrd<T>,
+    T: PFloat + PartialOrd<A>,
+{
+    let (a, x) = (A::from_raw(ar), T::from_b(fb));
+    head(c, "cmpf");
+    c.wr.raw(",\"ft\":");
+    c.wr.raw(T::FT);
+    c.wr.raw(",\"A\":");
+    c.wr.lay(A::lay());
+    c.wr.raw(",\"a\":");
+    c.wr.num(a.val());
+    c.wr.raw(",\"fb\":");
+    c.wr.num(Num::u(fb as u128));
+    c.wr.raw(",\"o\":");
+    c.wr.outs(&cmp7(&a, &x));
+    c.wr.raw(",\"r\":");
+    c.wr.outs(&cmp7(&x, &a));
+    c.wr.raw("}");
+    c.wr.end();
+}
+fn ev_f2x<A: Fx, T: PFloat>(c: &mut Ctx, fb: u64) {
+    let x = T::from_b(fb);
+    head(c, "f2x");
+    c.wr.raw(",\"ft\":");
+    c.wr.raw(T::FT);
+    c.wr.raw(",\"B\":");
+    c.wr.lay(A::lay());
+    c.wr.raw(",\"fb\":");
+    c.wr.num(Num::u(fb as u128));
+    c.wr.raw(",\"o\":");
+    c.wr.outs(&[
+        o_val(|| A::from_num(x)),
+        o_opt(|| A::checked_from_num(x)),
+        o_val(|| A::saturating_from_num(x)),
+        o_val(|| A::wrapping_from_num(x)),
+        o_pair(|| A::overflowing_from_num(x)),
+    ]);
+    c.wr.raw(",\"o2\":");
+    c.wr.outs(&[
+        o_val(|| x.to_fixed::<A>()),
+        o_opt(|| x.checked_to_fixed::<A>()),
+        o_val(|| x.saturating_to_fixed::<A>()),
+        o_val(|| x.wrapping_to_fixed::<A>()),
+        o_pair(|| x.overflowing_to_fixed::<A>()),
+    ]);
+    c.wr.raw("}");
+    c.wr.end();
+}
+fn ev_x2f<A, T>(c: &mut Ctx, ar: u128)
+where
+    A: Fx,
+    T: PFloat + LossyFrom<A>,
+{
+    let a = A::from_raw(ar);
+    head(c, "x2f");
+    c.wr.raw(",\"ft\":");
+    c.wr.raw(T::FT);
+    c.wr.raw(",\"A\":");
+    c.wr.lay(A::lay());
+    c.wr.raw(",\"a\":");
+    c.wr.num(a.val());
+    c.wr.raw(",\"o\":");
+    c.wr.outs(&[
+        pf_val(|| a.to_num::<T>()),
+        pf_opt(|| a.checked_to_num::<T>()),
+        pf_val(|| a.saturating_to_num::<T>()),
+        pf_val(|| a.wrapping_to_num::<T>()),
+        pf_pair(|| a.overflowing_to_num::<T>()),
+    ]);
+    // LossyFrom<fixed> for the float type: the same correctly rounded value
+    c.wr.raw(",\"lossy\":");
+    c.wr.out1(&pf_val(|| T::lossy_from(a)));
+    c.wr.raw("}");
+    c.wr.end();
 }
 
 fn floats<A, T>(c: &mut Ctx)
@@ -431,60 +523,20 @@ where
             cand.push(avs[i % avs.len()]);
             cand.push(rng.pattern(la.w));
             for ar in cand {
-                let a = A::from_raw(ar);
-                head(c, "cmpf");
-                c.wr.raw(",\"ft\":");
-                c.wr.raw(if T::BITS == 32 { "32" } else { "64" });
-                c.wr.raw(",\"A\":");
-                c.wr.lay(la);
-                c.wr.raw(",\"a\":");
-                c.wr.num(a.val());
-                c.wr.raw(",\"fb\":");
-                c.wr.num(Num::u(fb as u128));
-                c.wr.raw(",\"o\":");
-                c.wr.outs(&cmp7(&a, &x));
-                c.wr.raw(",\"r\":");
-                c.wr.outs(&cmp7(&x, &a));
-                c.wr.raw("}");
-                c.wr.end();
+                ev_cmpf::<A, T>(c, ar, fb);
             }
         }
         avs.clear();
     }
     if c.on("f2x") {
         for &fb in &pats {
-            let x = T::from_b(fb);
-            head(c, "f2x");
-            c.wr.raw(",\"ft\":");
-            c.wr.raw(if T::BITS == 32 { "32" } else { "64" });
-            c.wr.raw(",\"B\":");
-            c.wr.lay(la);
-            c.wr.raw(",\"fb\":");
-            c.wr.num(Num::u(fb as u128));
-            c.wr.raw(",\"o\":");
-            c.wr.outs(&[
-                o_val(|| A::from_num(x)),
-                o_opt(|| A::checked_from_num(x)),
-                o_val(|| A::saturating_from_num(x)),
-                o_val(|| A::wrapping_from_num(x)),
-                o_pair(|| A::overflowing_from_num(x)),
-            ]);
-            c.wr.raw(",\"o2\":");
-            c.wr.outs(&[
-                o_val(|| x.to_fixed::<A>()),
-                o_opt(|| x.checked_to_fixed::<A>()),
-                o_val(|| x.saturating_to_fixed::<A>()),
-                o_val(|| x.wrapping_to_fixed::<A>()),
-                o_pair(|| x.overflowing_to_fixed::<A>()),
-            ]);
-            c.wr.raw("}");
-            c.wr.end();
+            ev_f2x::<A, T>(c, fb);
         }
     }
     if c.on("x2f") {
         let mut vals = single_values(c, la, 11);
         // values with many significant bits and ties at the float precision
-        let p = if T::BITS == 32 { 24 } else { 53 };
+        let p = T::MBITS + 1;
         let mut rng = Rng::new(c.seed ^ 0x2F ^ ((la.w as u64) << 40) ^ ((la.f as u64) << 12));
         if la.w > p {
             for _ in 0..(if c.scale > 1 { c.n } else { c.n.max(40) }) {
@@ -499,27 +551,7 @@ where
             }
         }
         for ar in vals {
-            let a = A::from_raw(ar);
-            head(c, "x2f");
-            c.wr.raw(",\"ft\":");
-            c.wr.raw(if T::BITS == 32 { "32" } else { "64" });
-            c.wr.raw(",\"A\":");
-            c.wr.lay(la);
-            c.wr.raw(",\"a\":");
-            c.wr.num(a.val());
-            c.wr.raw(",\"o\":");
-            c.wr.outs(&[
-                pf_val(|| a.to_num::<T>()),
-                pf_opt(|| a.checked_to_num::<T>()),
-                pf_val(|| a.saturating_to_num::<T>()),
-                pf_val(|| a.wrapping_to_num::<T>()),
-                pf_pair(|| a.overflowing_to_num::<T>()),
-            ]);
-            // LossyFrom<fixed> for the float type: the same correctly rounded value
-            c.wr.raw(",\"lossy\":");
-            c.wr.out1(&pf_val(|| T::lossy_from(a)));
-            c.wr.raw("}");
-            c.wr.end();
+            ev_x2f::<A, T>(c, ar);
         }
     }
 }
